@@ -1,6 +1,13 @@
-// Package strategies (test only) holds the conformance driver for property C07 (spec/Collector.tla): it builds every real
-// multi-node strategy with scripted provider fakes, calls it once per scenario in real time and
-// records what the fakes actually returned (and when) and what the strategy returned (and when).
+// Package strategies (test only) holds the conformance driver for property C07 (spec/Collector.tla,
+// spec/CollectorInst.tla): it builds every real multi-node strategy with scripted provider fakes and runs a
+// HISTORY of calls on that ONE instance in real time (a scenario with a single call is the history of length
+// one): per call the fakes follow that call's script, and the driver records what they actually returned (and
+// when) and what the strategy returned (and when).  Calls of a history run one after the other or - as the
+// history says - overlapped (the second call is started while the first is in flight).  The instance is
+// constructed as main.go does (process concurrency, time-out, threshold); nothing is rebuilt between calls.
+// The fakes learn which call a request belongs to from a value in the request's context (the strategies pass
+// the caller's context down to the node clients); every response object carries the number of the call it was
+// made for, so that an object kept by the instance from an earlier call is told from a fresh one.
 // Injected with -overlay by /verif/check; nothing of it is committed to the repository.
 package strategies
 
@@ -15,9 +22,11 @@ import (
 	"os"
 	"regexp"
 	"runtime/pprof"
+	"sort"
 	"strconv"
 	"strings"
 	"sync"
+	"sync/atomic"
 	"testing"
 	"time"
 
@@ -64,6 +73,14 @@ type c07Prov struct {
 	Inv string `json:"inv"` // concrete rule an invalid response breaks: nil | niltarget | badtarget | zerofee
 }
 
+// c07Call is one call of a history: what every node does this time and when the call starts: "seq" after
+// every earlier call has returned, "early" together with the previous call, "mid" when the previous call has
+// passed its soft time-out (and is still in flight).
+type c07Call struct {
+	At    string    `json:"at"`
+	Provs []c07Prov `json:"provs"`
+}
+
 type c07Scenario struct {
 	Sc      int       `json:"sc"`
 	Strat   string    `json:"strat"`
@@ -73,13 +90,41 @@ type c07Scenario struct {
 	Cap     int       `json:"cap"`
 	T       int       `json:"T"` // time-out in ms
 	Seed    int64     `json:"seed"`
-	Provs   []c07Prov `json:"provs"`
+	PC      int       `json:"pc"`    // process concurrency the instance is constructed with (0: 4)
+	Slots   string    `json:"slots"` // "distinct": every call asks for another slot / block; otherwise the same one
+	Provs   []c07Prov `json:"provs"` // a single call on a fresh instance
+	Calls   []c07Call `json:"calls"` // a history of calls on one instance
+}
+
+func (sc *c07Scenario) pc() int64 {
+	if sc.PC > 0 {
+		return int64(sc.PC)
+	}
+	return 4
+}
+
+// epochOff is the number of epochs the slot of call j lies after that of call 0.
+func (sc *c07Scenario) epochOff(j int) int {
+	if sc.Slots == "distinct" {
+		return j
+	}
+	return 0
+}
+
+func (sc *c07Scenario) slot(j int) phase0.Slot { return phase0.Slot(c07Slot + 32*sc.epochOff(j)) }
+
+func (sc *c07Scenario) block(j int) string {
+	if sc.Slots == "distinct" {
+		return strconv.Itoa(int(sc.slot(j)))
+	}
+	return "head"
 }
 
 // c07Core is the scripted part of a provider fake: it sleeps to its phase point (a silent node
 // waits for the end of the request's context) and records the instant it actually returned.
 type c07Core struct {
-	idx       int
+	idx       int // node, 1-based
+	call      int // call of the history, 0-based
 	script    c07Prov
 	delay     time.Duration
 	maxSilent time.Duration
@@ -117,13 +162,35 @@ func (c *c07Core) wait(ctx context.Context) string {
 	return kind
 }
 
+// c07Hist is one history on one instance: the cores of every call and node.
+type c07Hist struct {
+	sc     *c07Scenario
+	cores  [][]*c07Core // [call][node]
+	latest atomic.Int32 // the call started last (for a request whose context does not say)
+	noctx  atomic.Int32 // requests whose context did not carry the call
+}
+
+type c07CallKey struct{}
+
+func (h *c07Hist) core(ctx context.Context, node int) *c07Core {
+	j, ok := ctx.Value(c07CallKey{}).(int)
+	if !ok {
+		h.noctx.Add(1)
+		j = int(h.latest.Load())
+	}
+	return h.cores[j][node-1]
+}
+
+// c07Fake is node `node` of the instance: per call it follows that call's core and hands out that call's data.
 type c07Fake[T any] struct {
-	*c07Core
-	data T
+	h    *c07Hist
+	node int
+	data []T // per call
 }
 
 func (f *c07Fake[T]) get(ctx context.Context) (*api.Response[T], error) {
-	switch f.wait(ctx) {
+	c := f.h.core(ctx, f.node)
+	switch c.wait(ctx) {
 	case "error":
 		return nil, errors.New("c07: scripted node error")
 	case "silent":
@@ -132,25 +199,25 @@ func (f *c07Fake[T]) get(ctx context.Context) (*api.Response[T], error) {
 		}
 		return nil, errors.New("c07: silent node gave up")
 	}
-	return &api.Response[T]{Data: f.data, Metadata: map[string]any{}}, nil
+	return &api.Response[T]{Data: f.data[c.call], Metadata: map[string]any{}}, nil
 }
 
 type c07AttP struct {
-	c07Fake[*phase0.AttestationData]
+	*c07Fake[*phase0.AttestationData]
 }
 
 func (p *c07AttP) AttestationData(ctx context.Context, _ *api.AttestationDataOpts) (*api.Response[*phase0.AttestationData], error) {
 	return p.get(ctx)
 }
 
-type c07AggP struct{ c07Fake[*phase0.Attestation] }
+type c07AggP struct{ *c07Fake[*phase0.Attestation] }
 
 func (p *c07AggP) AggregateAttestation(ctx context.Context, _ *api.AggregateAttestationOpts) (*api.Response[*phase0.Attestation], error) {
 	return p.get(ctx)
 }
 
 type c07PropP struct {
-	c07Fake[*api.VersionedProposal]
+	*c07Fake[*api.VersionedProposal]
 }
 
 func (p *c07PropP) Proposal(ctx context.Context, _ *api.ProposalOpts) (*api.Response[*api.VersionedProposal], error) {
@@ -158,21 +225,21 @@ func (p *c07PropP) Proposal(ctx context.Context, _ *api.ProposalOpts) (*api.Resp
 }
 
 type c07ContribP struct {
-	c07Fake[*altair.SyncCommitteeContribution]
+	*c07Fake[*altair.SyncCommitteeContribution]
 }
 
 func (p *c07ContribP) SyncCommitteeContribution(ctx context.Context, _ *api.SyncCommitteeContributionOpts) (*api.Response[*altair.SyncCommitteeContribution], error) {
 	return p.get(ctx)
 }
 
-type c07RootP struct{ c07Fake[*phase0.Root] }
+type c07RootP struct{ *c07Fake[*phase0.Root] }
 
 func (p *c07RootP) BeaconBlockRoot(ctx context.Context, _ *api.BeaconBlockRootOpts) (*api.Response[*phase0.Root], error) {
 	return p.get(ctx)
 }
 
 type c07HeaderP struct {
-	c07Fake[*apiv1.BeaconBlockHeader]
+	*c07Fake[*apiv1.BeaconBlockHeader]
 }
 
 func (p *c07HeaderP) BeaconBlockHeader(ctx context.Context, _ *api.BeaconBlockHeaderOpts) (*api.Response[*apiv1.BeaconBlockHeader], error) {
@@ -180,18 +247,19 @@ func (p *c07HeaderP) BeaconBlockHeader(ctx context.Context, _ *api.BeaconBlockHe
 }
 
 type c07BlockP struct {
-	c07Fake[*spec.VersionedSignedBeaconBlock]
+	*c07Fake[*spec.VersionedSignedBeaconBlock]
 }
 
 func (p *c07BlockP) SignedBeaconBlock(ctx context.Context, _ *api.SignedBeaconBlockOpts) (*api.Response[*spec.VersionedSignedBeaconBlock], error) {
 	return p.get(ctx)
 }
 
-// c07Cache is the scripted block-root-to-slot cache: the slot is written in the root.
+// c07Cache is the scripted block-root-to-slot cache: the slot is written in the root (byte 2: epochs after
+// the first call's slot, byte 1: slot offset).
 type c07Cache struct{}
 
 func (c07Cache) BlockRootToSlot(_ context.Context, root phase0.Root) (phase0.Slot, error) {
-	return phase0.Slot(300 + int(root[1])), nil
+	return phase0.Slot(300 + 32*int(root[2]) + int(root[1])), nil
 }
 
 func c07Name(i int) string { return fmt.Sprintf("node%d", i) }
@@ -208,21 +276,31 @@ func c07Root(v, slotOff, tag int) phase0.Root {
 	return r
 }
 
+// c07CallRoot is c07Root marked with the call the object is made for (byte 3: call number, 1-based) and the
+// epoch offset of that call's slot (byte 2, read by the cache).
+func c07CallRoot(v, slotOff, tag int, c *c07Core, sc *c07Scenario) phase0.Root {
+	r := c07Root(v, slotOff, tag)
+	r[2] = byte(sc.epochOff(c.call))
+	r[3] = byte(c.call + 1)
+	return r
+}
+
 // c07AttData: score = source + target + 1/(1 + slot - head slot); three ways of realising the
-// score classes 0 < 1 < 2 with the real score function's inputs.
-func c07AttData(p c07Prov, tag int, style int, sameForAll bool) *phase0.AttestationData {
+// score classes 0 < 1 < 2 with the real score function's inputs.  Slot and epochs are those of the call.
+func c07AttData(c *c07Core, sc *c07Scenario, p c07Prov, tag int, style int, sameForAll bool) *phase0.AttestationData {
 	if p.K == "invalid" && p.Inv == "nil" {
 		return nil
 	}
-	source, dist := c07Epoch-1, 1
+	epoch := c07Epoch + sc.epochOff(c.call)
+	source, dist := epoch-1, 1
 	if !sameForAll {
 		switch style % 3 {
 		case 0:
 			dist = []int{3, 1, 0}[p.S]
 		case 1:
-			source = c07Epoch - 3 + p.S
+			source = epoch - 3 + p.S
 		case 2:
-			source = []int{c07Epoch - 2, c07Epoch - 2, c07Epoch - 1}[p.S]
+			source = []int{epoch - 2, epoch - 2, epoch - 1}[p.S]
 			dist = []int{1, 0, 3}[p.S]
 		}
 	} else {
@@ -230,28 +308,31 @@ func c07AttData(p c07Prov, tag int, style int, sameForAll bool) *phase0.Attestat
 		dist = p.V % 2
 	}
 	d := &phase0.AttestationData{
-		Slot:            c07Slot,
+		Slot:            sc.slot(c.call),
 		Index:           phase0.CommitteeIndex(tag),
-		BeaconBlockRoot: c07Root(p.V, 25-dist, tag),
+		BeaconBlockRoot: c07CallRoot(p.V, 25-dist, tag, c, sc),
 		Source:          &phase0.Checkpoint{Epoch: phase0.Epoch(source), Root: c07Root(0, 0, 0)},
-		Target:          &phase0.Checkpoint{Epoch: c07Epoch, Root: c07Root(0, 1, 0)},
+		Target:          &phase0.Checkpoint{Epoch: phase0.Epoch(epoch), Root: c07Root(0, 1, 0)},
 	}
 	if p.K == "invalid" {
 		switch p.Inv {
 		case "niltarget":
 			d.Target = nil
 		case "badtarget":
+			// (the previous epoch is the target of a node that is late with the epoch transition - and, in a
+			// history over distinct slots, the valid target of the previous call)
 			if style%2 == 0 {
-				d.Target.Epoch = c07Epoch + 1
+				d.Target.Epoch = phase0.Epoch(epoch + 1)
 			} else {
-				d.Target.Epoch = c07Epoch - 1
+				d.Target.Epoch = phase0.Epoch(epoch - 1)
 			}
 		}
 	}
 	return d
 }
 
-func c07Aggregate(p c07Prov, tag int, style int) *phase0.Attestation {
+func c07Aggregate(c *c07Core, sc *c07Scenario, style int) *phase0.Attestation {
+	p, tag := c.script, c.idx
 	if p.K == "invalid" {
 		return nil
 	}
@@ -266,11 +347,12 @@ func c07Aggregate(p c07Prov, tag int, style int) *phase0.Attestation {
 	}
 	return &phase0.Attestation{
 		AggregationBits: bits,
-		Data:            c07AttData(c07Prov{K: "valid", S: 1}, tag, 0, false),
+		Data:            c07AttData(c, sc, c07Prov{K: "valid", S: 1}, tag, 0, false),
 	}
 }
 
-func c07Contribution(p c07Prov, tag int, style int) *altair.SyncCommitteeContribution {
+func c07Contribution(c *c07Core, sc *c07Scenario, style int) *altair.SyncCommitteeContribution {
+	p, tag := c.script, c.idx
 	if p.K == "invalid" {
 		return nil
 	}
@@ -279,14 +361,16 @@ func c07Contribution(p c07Prov, tag int, style int) *altair.SyncCommitteeContrib
 		bits.SetBitAt(uint64(i*5+tag), true)
 	}
 	return &altair.SyncCommitteeContribution{
-		Slot:              c07Slot,
+		Slot:              sc.slot(c.call),
 		BeaconBlockRoot:   c07Root(0, 25, 0),
 		SubcommitteeIndex: uint64(tag),
 		AggregationBits:   bits,
+		Signature:         phase0.BLSSignature{byte(c.call + 1)},
 	}
 }
 
-func c07Proposal(p c07Prov, tag int, style int) *api.VersionedProposal {
+func c07Proposal(c *c07Core, sc *c07Scenario, style int) *api.VersionedProposal {
+	p, tag := c.script, c.idx
 	if p.K == "invalid" && p.Inv == "nil" {
 		return nil
 	}
@@ -303,13 +387,15 @@ func c07Proposal(p c07Prov, tag int, style int) *api.VersionedProposal {
 		ExecutionValue: big.NewInt(execution),
 	}
 	eth1 := &phase0.ETH1Data{BlockHash: make([]byte, 32)}
+	graffiti := [32]byte{byte(c.call + 1)}
 	if style%4 < 2 {
 		prop.Version = spec.DataVersionBellatrix
 		prop.Bellatrix = &bellatrix.BeaconBlock{
-			Slot:          c07Slot,
+			Slot:          sc.slot(c.call),
 			ProposerIndex: phase0.ValidatorIndex(tag),
 			Body: &bellatrix.BeaconBlockBody{
 				ETH1Data:         eth1,
+				Graffiti:         graffiti,
 				SyncAggregate:    &altair.SyncAggregate{SyncCommitteeBits: bitfield.NewBitvector512()},
 				ExecutionPayload: &bellatrix.ExecutionPayload{FeeRecipient: fee},
 			},
@@ -317,10 +403,11 @@ func c07Proposal(p c07Prov, tag int, style int) *api.VersionedProposal {
 	} else {
 		prop.Version = spec.DataVersionCapella
 		prop.Capella = &capella.BeaconBlock{
-			Slot:          c07Slot,
+			Slot:          sc.slot(c.call),
 			ProposerIndex: phase0.ValidatorIndex(tag),
 			Body: &capella.BeaconBlockBody{
 				ETH1Data:         eth1,
+				Graffiti:         graffiti,
 				SyncAggregate:    &altair.SyncAggregate{SyncCommitteeBits: bitfield.NewBitvector512()},
 				ExecutionPayload: &capella.ExecutionPayload{FeeRecipient: fee},
 			},
@@ -329,17 +416,19 @@ func c07Proposal(p c07Prov, tag int, style int) *api.VersionedProposal {
 	return prop
 }
 
-func c07ProposalTag(p *api.VersionedProposal) int {
+// c07ProposalTag: whose proposal (proposer index) and of which call (graffiti).
+func c07ProposalTag(p *api.VersionedProposal) (int, int) {
 	switch {
 	case p.Bellatrix != nil:
-		return int(p.Bellatrix.ProposerIndex)
+		return int(p.Bellatrix.ProposerIndex), int(p.Bellatrix.Body.Graffiti[0])
 	case p.Capella != nil:
-		return int(p.Capella.ProposerIndex)
+		return int(p.Capella.ProposerIndex), int(p.Capella.Body.Graffiti[0])
 	}
-	return 0
+	return 0, 0
 }
 
-func c07RootData(p c07Prov, tag int, style int, counting bool) *phase0.Root {
+func c07RootData(c *c07Core, sc *c07Scenario, style int, counting bool) *phase0.Root {
+	p, tag := c.script, c.idx
 	if p.K == "invalid" {
 		return nil
 	}
@@ -349,32 +438,40 @@ func c07RootData(p c07Prov, tag int, style int, counting bool) *phase0.Root {
 	} else {
 		r = c07Root(0, p.S*(1+style%3), tag)
 	}
+	r[3] = byte(c.call + 1)
 	return &r
 }
 
-func c07Header(p c07Prov, tag int) *apiv1.BeaconBlockHeader {
+func c07Header(c *c07Core, sc *c07Scenario) *apiv1.BeaconBlockHeader {
+	p, tag := c.script, c.idx
 	if p.K == "invalid" {
 		return nil
 	}
+	root := c07Root(0, 0, tag)
+	root[3] = byte(c.call + 1)
 	return &apiv1.BeaconBlockHeader{
-		Root:      c07Root(0, 0, tag),
+		Root:      root,
 		Canonical: true,
 		Header: &phase0.SignedBeaconBlockHeader{
-			Message: &phase0.BeaconBlockHeader{Slot: c07Slot, ProposerIndex: phase0.ValidatorIndex(tag)},
+			Message: &phase0.BeaconBlockHeader{Slot: sc.slot(c.call), ProposerIndex: phase0.ValidatorIndex(tag)},
 		},
 	}
 }
 
-func c07Block(p c07Prov, tag int) *spec.VersionedSignedBeaconBlock {
+func c07Block(c *c07Core, sc *c07Scenario) *spec.VersionedSignedBeaconBlock {
+	p, tag := c.script, c.idx
 	if p.K == "invalid" {
 		return nil
 	}
+	parent := c07Root(0, 0, 0)
+	parent[3] = byte(c.call + 1)
 	return &spec.VersionedSignedBeaconBlock{
 		Version: spec.DataVersionPhase0,
 		Phase0: &phase0.SignedBeaconBlock{
 			Message: &phase0.BeaconBlock{
-				Slot:          c07Slot,
+				Slot:          sc.slot(c.call),
 				ProposerIndex: phase0.ValidatorIndex(tag),
+				ParentRoot:    parent,
 				Body:          &phase0.BeaconBlockBody{ETH1Data: &phase0.ETH1Data{BlockHash: make([]byte, 32)}},
 			},
 		},
@@ -385,93 +482,108 @@ func c07Block(p c07Prov, tag int) *spec.VersionedSignedBeaconBlock {
 // the 17 strategies
 
 // c07Out is what a strategy call returned: whose object (tag embedded in the data), which value
-// (majority variants), whether it reported success with missing data.
+// (majority variants), for which call of the history the object was made, whether it reported success with
+// missing data.
 type c07Out struct {
-	who, val int
-	nildata  bool
-	err      error
+	who, val, of int
+	nildata      bool
+	err          error
 }
 
-// c07Kit builds the real strategy over the cores' fakes; it returns the call and the real score of
-// every node's response (scaled by 1000; 0 where the strategy has no score).
-type c07Kit func(ctx context.Context, sc *c07Scenario, cores []*c07Core, style int) (func(context.Context) c07Out, []int, error)
+// c07Kit builds the ONE real strategy instance of a history over the nodes' fakes; it returns the call
+// (j: which call of the history - only the slot / block asked for depends on it) and the real score of every
+// node's response in every call (scaled by 1000; 0 where the strategy has no score), [node][call].
+type c07Kit func(ctx context.Context, h *c07Hist, style int) (func(ctx context.Context, j int) c07Out, [][]int, error)
 
 func c07Scaled(score float64) int { return int(math.Round(score * 1000)) }
 
-func c07Providers[T any, P any](cores []*c07Core, data func(c *c07Core) T, wrap func(c07Fake[T]) P) (map[string]P, []T) {
-	m := make(map[string]P, len(cores))
-	ds := make([]T, len(cores))
-	for i, c := range cores {
-		ds[i] = data(c)
-		m[c07Name(c.idx)] = wrap(c07Fake[T]{c07Core: c, data: ds[i]})
+func c07Providers[T any, P any](h *c07Hist, data func(c *c07Core) T, wrap func(*c07Fake[T]) P) (map[string]P, [][]T) {
+	n := h.sc.N
+	m := make(map[string]P, n)
+	ds := make([][]T, n)
+	for i := 0; i < n; i++ {
+		ds[i] = make([]T, len(h.cores))
+		for j := range h.cores {
+			ds[i][j] = data(h.cores[j][i])
+		}
+		m[c07Name(i+1)] = wrap(&c07Fake[T]{h: h, node: i + 1, data: ds[i]})
 	}
 	return m, ds
 }
 
-func c07AttOut(n int) func(*api.Response[*phase0.AttestationData], error) c07Out {
-	return func(r *api.Response[*phase0.AttestationData], err error) c07Out {
-		if err != nil {
-			return c07Out{err: err}
+// c07Scores applies the real score function (through the instance's seam) to every valid response of the history.
+func c07Scores[T any](h *c07Hist, ds [][]T, score func(name string, d T) float64) [][]int {
+	scores := make([][]int, len(ds))
+	for i := range ds {
+		scores[i] = make([]int, len(ds[i]))
+		for j := range ds[i] {
+			if h.cores[j][i].script.K == "valid" && score != nil {
+				scores[i][j] = c07Scaled(score(c07Name(i+1), ds[i][j]))
+			}
 		}
-		if r == nil || r.Data == nil {
-			return c07Out{nildata: true}
-		}
-		return c07Out{who: int(r.Data.Index), val: int(r.Data.BeaconBlockRoot[0])}
 	}
+	return scores
+}
+
+func c07AttOut(r *api.Response[*phase0.AttestationData], err error) c07Out {
+	if err != nil {
+		return c07Out{err: err}
+	}
+	if r == nil || r.Data == nil {
+		return c07Out{nildata: true}
+	}
+	return c07Out{who: int(r.Data.Index), val: int(r.Data.BeaconBlockRoot[0]), of: int(r.Data.BeaconBlockRoot[3])}
 }
 
 func c07AttKit(impl string) c07Kit {
-	return func(ctx context.Context, sc *c07Scenario, cores []*c07Core, style int) (func(context.Context) c07Out, []int, error) {
-		provs, ds := c07Providers(cores,
-			func(c *c07Core) *phase0.AttestationData { return c07AttData(c.script, c.idx, style, impl == "majority") },
-			func(f c07Fake[*phase0.AttestationData]) eth2client.AttestationDataProvider { return &c07AttP{f} })
+	return func(ctx context.Context, h *c07Hist, style int) (func(context.Context, int) c07Out, [][]int, error) {
+		sc := h.sc
+		provs, ds := c07Providers(h,
+			func(c *c07Core) *phase0.AttestationData {
+				return c07AttData(c, sc, c.script, c.idx, style, impl == "majority")
+			},
+			func(f *c07Fake[*phase0.AttestationData]) eth2client.AttestationDataProvider { return &c07AttP{f} })
 		ct := verifsupport.NewChainTime(32, 12*time.Second)
 		ct.SetSlot(c07Slot)
 		timeout := time.Duration(sc.T) * time.Millisecond
-		opts := &api.AttestationDataOpts{Slot: c07Slot, CommitteeIndex: 0}
-		scores := make([]int, len(cores))
-		out := c07AttOut(sc.N)
+		opts := func(j int) *api.AttestationDataOpts { return &api.AttestationDataOpts{Slot: sc.slot(j), CommitteeIndex: 0} }
 		switch impl {
 		case "best":
 			s, err := attbest.New(ctx, attbest.WithLogLevel(zerolog.Disabled), attbest.WithClientMonitor(nullmetrics.New()),
 				attbest.WithTimeout(timeout), attbest.WithAttestationDataProviders(provs), attbest.WithChainTime(ct),
-				attbest.WithBlockRootToSlotCache(c07Cache{}), attbest.WithProcessConcurrency(4))
+				attbest.WithBlockRootToSlotCache(c07Cache{}), attbest.WithProcessConcurrency(sc.pc()))
 			if err != nil {
 				return nil, nil, err
 			}
-			for i, c := range cores {
-				if c.script.K == "valid" {
-					scores[i] = c07Scaled(s.VerifC07Score(ctx, c07Name(c.idx), ds[i]))
-				}
-			}
-			return func(ctx context.Context) c07Out { return out(s.AttestationData(ctx, opts)) }, scores, nil
+			scores := c07Scores(h, ds, func(name string, d *phase0.AttestationData) float64 { return s.VerifC07Score(ctx, name, d) })
+			return func(ctx context.Context, j int) c07Out { return c07AttOut(s.AttestationData(ctx, opts(j))) }, scores, nil
 		case "majority":
 			s, err := attmajority.New(ctx, attmajority.WithLogLevel(zerolog.Disabled), attmajority.WithClientMonitor(nullmetrics.New()),
 				attmajority.WithTimeout(timeout), attmajority.WithAttestationDataProviders(provs), attmajority.WithChainTime(ct),
-				attmajority.WithBlockRootToSlotCache(c07Cache{}), attmajority.WithProcessConcurrency(4), attmajority.WithThreshold(sc.Thr))
+				attmajority.WithBlockRootToSlotCache(c07Cache{}), attmajority.WithProcessConcurrency(sc.pc()), attmajority.WithThreshold(sc.Thr))
 			if err != nil {
 				return nil, nil, err
 			}
-			return func(ctx context.Context) c07Out { return out(s.AttestationData(ctx, opts)) }, scores, nil
+			return func(ctx context.Context, j int) c07Out { return c07AttOut(s.AttestationData(ctx, opts(j))) }, c07Scores(h, ds, nil), nil
 		default:
 			s, err := attfirst.New(ctx, attfirst.WithLogLevel(zerolog.Disabled), attfirst.WithClientMonitor(nullmetrics.New()),
 				attfirst.WithTimeout(timeout), attfirst.WithAttestationDataProviders(provs))
 			if err != nil {
 				return nil, nil, err
 			}
-			return func(ctx context.Context) c07Out { return out(s.AttestationData(ctx, opts)) }, scores, nil
+			return func(ctx context.Context, j int) c07Out { return c07AttOut(s.AttestationData(ctx, opts(j))) }, c07Scores(h, ds, nil), nil
 		}
 	}
 }
 
 func c07AggKit(impl string) c07Kit {
-	return func(ctx context.Context, sc *c07Scenario, cores []*c07Core, style int) (func(context.Context) c07Out, []int, error) {
-		provs, ds := c07Providers(cores,
-			func(c *c07Core) *phase0.Attestation { return c07Aggregate(c.script, c.idx, style) },
-			func(f c07Fake[*phase0.Attestation]) eth2client.AggregateAttestationProvider { return &c07AggP{f} })
+	return func(ctx context.Context, h *c07Hist, style int) (func(context.Context, int) c07Out, [][]int, error) {
+		sc := h.sc
+		provs, ds := c07Providers(h,
+			func(c *c07Core) *phase0.Attestation { return c07Aggregate(c, sc, style) },
+			func(f *c07Fake[*phase0.Attestation]) eth2client.AggregateAttestationProvider { return &c07AggP{f} })
 		timeout := time.Duration(sc.T) * time.Millisecond
-		opts := &api.AggregateAttestationOpts{Slot: c07Slot}
-		scores := make([]int, len(cores))
+		opts := func(j int) *api.AggregateAttestationOpts { return &api.AggregateAttestationOpts{Slot: sc.slot(j)} }
 		out := func(r *api.Response[*phase0.Attestation], err error) c07Out {
 			if err != nil {
 				return c07Out{err: err}
@@ -479,38 +591,34 @@ func c07AggKit(impl string) c07Kit {
 			if r == nil || r.Data == nil {
 				return c07Out{nildata: true}
 			}
-			return c07Out{who: int(r.Data.Data.Index)}
+			return c07Out{who: int(r.Data.Data.Index), of: int(r.Data.Data.BeaconBlockRoot[3])}
 		}
 		if impl == "best" {
 			s, err := aggbest.New(ctx, aggbest.WithLogLevel(zerolog.Disabled), aggbest.WithClientMonitor(nullmetrics.New()),
-				aggbest.WithTimeout(timeout), aggbest.WithAggregateAttestationProviders(provs), aggbest.WithProcessConcurrency(4))
+				aggbest.WithTimeout(timeout), aggbest.WithAggregateAttestationProviders(provs), aggbest.WithProcessConcurrency(sc.pc()))
 			if err != nil {
 				return nil, nil, err
 			}
-			for i, c := range cores {
-				if c.script.K == "valid" {
-					scores[i] = c07Scaled(s.VerifC07Score(ctx, c07Name(c.idx), ds[i]))
-				}
-			}
-			return func(ctx context.Context) c07Out { return out(s.AggregateAttestation(ctx, opts)) }, scores, nil
+			scores := c07Scores(h, ds, func(name string, d *phase0.Attestation) float64 { return s.VerifC07Score(ctx, name, d) })
+			return func(ctx context.Context, j int) c07Out { return out(s.AggregateAttestation(ctx, opts(j))) }, scores, nil
 		}
 		s, err := aggfirst.New(ctx, aggfirst.WithLogLevel(zerolog.Disabled), aggfirst.WithClientMonitor(nullmetrics.New()),
 			aggfirst.WithTimeout(timeout), aggfirst.WithAggregateAttestationProviders(provs))
 		if err != nil {
 			return nil, nil, err
 		}
-		return func(ctx context.Context) c07Out { return out(s.AggregateAttestation(ctx, opts)) }, scores, nil
+		return func(ctx context.Context, j int) c07Out { return out(s.AggregateAttestation(ctx, opts(j))) }, c07Scores(h, ds, nil), nil
 	}
 }
 
 func c07PropKit(impl string) c07Kit {
-	return func(ctx context.Context, sc *c07Scenario, cores []*c07Core, style int) (func(context.Context) c07Out, []int, error) {
-		provs, ds := c07Providers(cores,
-			func(c *c07Core) *api.VersionedProposal { return c07Proposal(c.script, c.idx, style) },
-			func(f c07Fake[*api.VersionedProposal]) eth2client.ProposalProvider { return &c07PropP{f} })
+	return func(ctx context.Context, h *c07Hist, style int) (func(context.Context, int) c07Out, [][]int, error) {
+		sc := h.sc
+		provs, ds := c07Providers(h,
+			func(c *c07Core) *api.VersionedProposal { return c07Proposal(c, sc, style) },
+			func(f *c07Fake[*api.VersionedProposal]) eth2client.ProposalProvider { return &c07PropP{f} })
 		timeout := time.Duration(sc.T) * time.Millisecond
-		opts := &api.ProposalOpts{Slot: c07Slot}
-		scores := make([]int, len(cores))
+		opts := func(j int) *api.ProposalOpts { return &api.ProposalOpts{Slot: sc.slot(j)} }
 		out := func(r *api.Response[*api.VersionedProposal], err error) c07Out {
 			if err != nil {
 				return c07Out{err: err}
@@ -518,45 +626,44 @@ func c07PropKit(impl string) c07Kit {
 			if r == nil || r.Data == nil {
 				return c07Out{nildata: true}
 			}
-			return c07Out{who: c07ProposalTag(r.Data)}
+			who, of := c07ProposalTag(r.Data)
+			return c07Out{who: who, of: of}
 		}
 		if impl == "best" {
 			ct := verifsupport.NewChainTime(32, 12*time.Second)
 			ct.SetSlot(c07Slot)
 			s, err := propbest.New(ctx, propbest.WithLogLevel(zerolog.Disabled), propbest.WithClientMonitor(nullmetrics.New()),
-				propbest.WithTimeout(timeout), propbest.WithProposalProviders(provs), propbest.WithProcessConcurrency(4),
+				propbest.WithTimeout(timeout), propbest.WithProposalProviders(provs), propbest.WithProcessConcurrency(sc.pc()),
 				propbest.WithEventsProvider(mock.NewEventsProvider()), propbest.WithChainTimeService(ct),
 				propbest.WithSpecProvider(mock.NewSpecProvider()), propbest.WithSignedBeaconBlockProvider(mock.NewSignedBeaconBlockProvider()),
 				propbest.WithBlockRootToSlotCache(c07Cache{}))
 			if err != nil {
 				return nil, nil, err
 			}
-			for i, c := range cores {
-				if c.script.K == "valid" {
-					scores[i] = c07Scaled(s.VerifC07Score(ctx, c07Name(c.idx), ds[i]))
-				}
-			}
-			return func(ctx context.Context) c07Out { return out(s.Proposal(ctx, opts)) }, scores, nil
+			scores := c07Scores(h, ds, func(name string, d *api.VersionedProposal) float64 { return s.VerifC07Score(ctx, name, d) })
+			return func(ctx context.Context, j int) c07Out { return out(s.Proposal(ctx, opts(j))) }, scores, nil
 		}
 		s, err := propfirst.New(ctx, propfirst.WithLogLevel(zerolog.Disabled), propfirst.WithClientMonitor(nullmetrics.New()),
 			propfirst.WithTimeout(timeout), propfirst.WithProposalProviders(provs))
 		if err != nil {
 			return nil, nil, err
 		}
-		return func(ctx context.Context) c07Out { return out(s.Proposal(ctx, opts)) }, scores, nil
+		return func(ctx context.Context, j int) c07Out { return out(s.Proposal(ctx, opts(j))) }, c07Scores(h, ds, nil), nil
 	}
 }
 
 func c07ContribKit(impl string) c07Kit {
-	return func(ctx context.Context, sc *c07Scenario, cores []*c07Core, style int) (func(context.Context) c07Out, []int, error) {
-		provs, ds := c07Providers(cores,
-			func(c *c07Core) *altair.SyncCommitteeContribution { return c07Contribution(c.script, c.idx, style) },
-			func(f c07Fake[*altair.SyncCommitteeContribution]) eth2client.SyncCommitteeContributionProvider {
+	return func(ctx context.Context, h *c07Hist, style int) (func(context.Context, int) c07Out, [][]int, error) {
+		sc := h.sc
+		provs, ds := c07Providers(h,
+			func(c *c07Core) *altair.SyncCommitteeContribution { return c07Contribution(c, sc, style) },
+			func(f *c07Fake[*altair.SyncCommitteeContribution]) eth2client.SyncCommitteeContributionProvider {
 				return &c07ContribP{f}
 			})
 		timeout := time.Duration(sc.T) * time.Millisecond
-		opts := &api.SyncCommitteeContributionOpts{Slot: c07Slot, SubcommitteeIndex: 0, BeaconBlockRoot: c07Root(0, 25, 0)}
-		scores := make([]int, len(cores))
+		opts := func(j int) *api.SyncCommitteeContributionOpts {
+			return &api.SyncCommitteeContributionOpts{Slot: sc.slot(j), SubcommitteeIndex: 0, BeaconBlockRoot: c07Root(0, 25, 0)}
+		}
 		out := func(r *api.Response[*altair.SyncCommitteeContribution], err error) c07Out {
 			if err != nil {
 				return c07Out{err: err}
@@ -564,38 +671,34 @@ func c07ContribKit(impl string) c07Kit {
 			if r == nil || r.Data == nil {
 				return c07Out{nildata: true}
 			}
-			return c07Out{who: int(r.Data.SubcommitteeIndex)}
+			return c07Out{who: int(r.Data.SubcommitteeIndex), of: int(r.Data.Signature[0])}
 		}
 		if impl == "best" {
 			s, err := contribbest.New(ctx, contribbest.WithLogLevel(zerolog.Disabled), contribbest.WithClientMonitor(nullmetrics.New()),
-				contribbest.WithTimeout(timeout), contribbest.WithSyncCommitteeContributionProviders(provs), contribbest.WithProcessConcurrency(4))
+				contribbest.WithTimeout(timeout), contribbest.WithSyncCommitteeContributionProviders(provs), contribbest.WithProcessConcurrency(sc.pc()))
 			if err != nil {
 				return nil, nil, err
 			}
-			for i, c := range cores {
-				if c.script.K == "valid" {
-					scores[i] = c07Scaled(s.VerifC07Score(ctx, c07Name(c.idx), ds[i]))
-				}
-			}
-			return func(ctx context.Context) c07Out { return out(s.SyncCommitteeContribution(ctx, opts)) }, scores, nil
+			scores := c07Scores(h, ds, func(name string, d *altair.SyncCommitteeContribution) float64 { return s.VerifC07Score(ctx, name, d) })
+			return func(ctx context.Context, j int) c07Out { return out(s.SyncCommitteeContribution(ctx, opts(j))) }, scores, nil
 		}
 		s, err := contribfirst.New(ctx, contribfirst.WithLogLevel(zerolog.Disabled), contribfirst.WithClientMonitor(nullmetrics.New()),
 			contribfirst.WithTimeout(timeout), contribfirst.WithSyncCommitteeContributionProviders(provs))
 		if err != nil {
 			return nil, nil, err
 		}
-		return func(ctx context.Context) c07Out { return out(s.SyncCommitteeContribution(ctx, opts)) }, scores, nil
+		return func(ctx context.Context, j int) c07Out { return out(s.SyncCommitteeContribution(ctx, opts(j))) }, c07Scores(h, ds, nil), nil
 	}
 }
 
 func c07RootKit(impl string) c07Kit {
-	return func(ctx context.Context, sc *c07Scenario, cores []*c07Core, style int) (func(context.Context) c07Out, []int, error) {
-		provs, ds := c07Providers(cores,
-			func(c *c07Core) *phase0.Root { return c07RootData(c.script, c.idx, style, impl == "majority") },
-			func(f c07Fake[*phase0.Root]) eth2client.BeaconBlockRootProvider { return &c07RootP{f} })
+	return func(ctx context.Context, h *c07Hist, style int) (func(context.Context, int) c07Out, [][]int, error) {
+		sc := h.sc
+		provs, ds := c07Providers(h,
+			func(c *c07Core) *phase0.Root { return c07RootData(c, sc, style, impl == "majority") },
+			func(f *c07Fake[*phase0.Root]) eth2client.BeaconBlockRootProvider { return &c07RootP{f} })
 		timeout := time.Duration(sc.T) * time.Millisecond
-		opts := &api.BeaconBlockRootOpts{Block: "head"}
-		scores := make([]int, len(cores))
+		opts := func(j int) *api.BeaconBlockRootOpts { return &api.BeaconBlockRootOpts{Block: sc.block(j)} }
 		out := func(r *api.Response[*phase0.Root], err error) c07Out {
 			if err != nil {
 				return c07Out{err: err}
@@ -603,88 +706,92 @@ func c07RootKit(impl string) c07Kit {
 			if r == nil || r.Data == nil {
 				return c07Out{nildata: true}
 			}
-			return c07Out{who: int(r.Data[31]), val: int(r.Data[0])}
+			return c07Out{who: int(r.Data[31]), val: int(r.Data[0]), of: int(r.Data[3])}
 		}
 		switch impl {
 		case "latest":
 			s, err := rootlatest.New(ctx, rootlatest.WithLogLevel(zerolog.Disabled), rootlatest.WithClientMonitor(nullmetrics.New()),
-				rootlatest.WithTimeout(timeout), rootlatest.WithBeaconBlockRootProviders(provs), rootlatest.WithProcessConcurrency(4),
+				rootlatest.WithTimeout(timeout), rootlatest.WithBeaconBlockRootProviders(provs), rootlatest.WithProcessConcurrency(sc.pc()),
 				rootlatest.WithBlockRootToSlotCache(c07Cache{}))
 			if err != nil {
 				return nil, nil, err
 			}
 			// `latest` scores a root by the slot of its block, which it reads from the cache.
-			for i, c := range cores {
-				if c.script.K == "valid" {
-					slot, _ := c07Cache{}.BlockRootToSlot(ctx, *ds[i])
-					scores[i] = int(slot)
+			scores := make([][]int, len(ds))
+			for i := range ds {
+				scores[i] = make([]int, len(ds[i]))
+				for j := range ds[i] {
+					if h.cores[j][i].script.K == "valid" {
+						slot, _ := c07Cache{}.BlockRootToSlot(ctx, *ds[i][j])
+						scores[i][j] = int(slot)
+					}
 				}
 			}
-			return func(ctx context.Context) c07Out { return out(s.BeaconBlockRoot(ctx, opts)) }, scores, nil
+			return func(ctx context.Context, j int) c07Out { return out(s.BeaconBlockRoot(ctx, opts(j))) }, scores, nil
 		case "majority":
 			s, err := rootmajority.New(ctx, rootmajority.WithLogLevel(zerolog.Disabled), rootmajority.WithClientMonitor(nullmetrics.New()),
-				rootmajority.WithTimeout(timeout), rootmajority.WithBeaconBlockRootProviders(provs), rootmajority.WithProcessConcurrency(4),
+				rootmajority.WithTimeout(timeout), rootmajority.WithBeaconBlockRootProviders(provs), rootmajority.WithProcessConcurrency(sc.pc()),
 				rootmajority.WithBlockRootToSlotCache(c07Cache{}))
 			if err != nil {
 				return nil, nil, err
 			}
-			return func(ctx context.Context) c07Out { return out(s.BeaconBlockRoot(ctx, opts)) }, scores, nil
+			return func(ctx context.Context, j int) c07Out { return out(s.BeaconBlockRoot(ctx, opts(j))) }, c07Scores(h, ds, nil), nil
 		default:
 			s, err := rootfirst.New(ctx, rootfirst.WithLogLevel(zerolog.Disabled), rootfirst.WithClientMonitor(nullmetrics.New()),
 				rootfirst.WithTimeout(timeout), rootfirst.WithBeaconBlockRootProviders(provs))
 			if err != nil {
 				return nil, nil, err
 			}
-			return func(ctx context.Context) c07Out { return out(s.BeaconBlockRoot(ctx, opts)) }, scores, nil
+			return func(ctx context.Context, j int) c07Out { return out(s.BeaconBlockRoot(ctx, opts(j))) }, c07Scores(h, ds, nil), nil
 		}
 	}
 }
 
 func c07HeaderKit() c07Kit {
-	return func(ctx context.Context, sc *c07Scenario, cores []*c07Core, _ int) (func(context.Context) c07Out, []int, error) {
-		provs, _ := c07Providers(cores,
-			func(c *c07Core) *apiv1.BeaconBlockHeader { return c07Header(c.script, c.idx) },
-			func(f c07Fake[*apiv1.BeaconBlockHeader]) eth2client.BeaconBlockHeadersProvider { return &c07HeaderP{f} })
+	return func(ctx context.Context, h *c07Hist, _ int) (func(context.Context, int) c07Out, [][]int, error) {
+		sc := h.sc
+		provs, ds := c07Providers(h,
+			func(c *c07Core) *apiv1.BeaconBlockHeader { return c07Header(c, sc) },
+			func(f *c07Fake[*apiv1.BeaconBlockHeader]) eth2client.BeaconBlockHeadersProvider { return &c07HeaderP{f} })
 		s, err := headerfirst.New(ctx, headerfirst.WithLogLevel(zerolog.Disabled), headerfirst.WithClientMonitor(nullmetrics.New()),
 			headerfirst.WithTimeout(time.Duration(sc.T)*time.Millisecond), headerfirst.WithBeaconBlockHeadersProviders(provs))
 		if err != nil {
 			return nil, nil, err
 		}
-		opts := &api.BeaconBlockHeaderOpts{Block: "head"}
-		return func(ctx context.Context) c07Out {
-			r, err := s.BeaconBlockHeader(ctx, opts)
+		return func(ctx context.Context, j int) c07Out {
+			r, err := s.BeaconBlockHeader(ctx, &api.BeaconBlockHeaderOpts{Block: sc.block(j)})
 			if err != nil {
 				return c07Out{err: err}
 			}
 			if r == nil || r.Data == nil || r.Data.Header == nil || r.Data.Header.Message == nil {
 				return c07Out{nildata: true}
 			}
-			return c07Out{who: int(r.Data.Header.Message.ProposerIndex)}
-		}, make([]int, len(cores)), nil
+			return c07Out{who: int(r.Data.Header.Message.ProposerIndex), of: int(r.Data.Root[3])}
+		}, c07Scores(h, ds, nil), nil
 	}
 }
 
 func c07BlockKit() c07Kit {
-	return func(ctx context.Context, sc *c07Scenario, cores []*c07Core, _ int) (func(context.Context) c07Out, []int, error) {
-		provs, _ := c07Providers(cores,
-			func(c *c07Core) *spec.VersionedSignedBeaconBlock { return c07Block(c.script, c.idx) },
-			func(f c07Fake[*spec.VersionedSignedBeaconBlock]) eth2client.SignedBeaconBlockProvider { return &c07BlockP{f} })
+	return func(ctx context.Context, h *c07Hist, _ int) (func(context.Context, int) c07Out, [][]int, error) {
+		sc := h.sc
+		provs, ds := c07Providers(h,
+			func(c *c07Core) *spec.VersionedSignedBeaconBlock { return c07Block(c, sc) },
+			func(f *c07Fake[*spec.VersionedSignedBeaconBlock]) eth2client.SignedBeaconBlockProvider { return &c07BlockP{f} })
 		s, err := blockfirst.New(ctx, blockfirst.WithLogLevel(zerolog.Disabled), blockfirst.WithClientMonitor(nullmetrics.New()),
 			blockfirst.WithTimeout(time.Duration(sc.T)*time.Millisecond), blockfirst.WithSignedBeaconBlockProviders(provs))
 		if err != nil {
 			return nil, nil, err
 		}
-		opts := &api.SignedBeaconBlockOpts{Block: "head"}
-		return func(ctx context.Context) c07Out {
-			r, err := s.SignedBeaconBlock(ctx, opts)
+		return func(ctx context.Context, j int) c07Out {
+			r, err := s.SignedBeaconBlock(ctx, &api.SignedBeaconBlockOpts{Block: sc.block(j)})
 			if err != nil {
 				return c07Out{err: err}
 			}
 			if r == nil || r.Data == nil || r.Data.Phase0 == nil || r.Data.Phase0.Message == nil {
 				return c07Out{nildata: true}
 			}
-			return c07Out{who: int(r.Data.Phase0.Message.ProposerIndex)}
-		}, make([]int, len(cores)), nil
+			return c07Out{who: int(r.Data.Phase0.Message.ProposerIndex), of: int(r.Data.Phase0.Message.ParentRoot[3])}
+		}, c07Scores(h, ds, nil), nil
 	}
 }
 
@@ -759,90 +866,174 @@ type c07Record struct {
 	reset, ret verifsupport.Ev
 }
 
-func c07Run(sc *c07Scenario, mon *c07Monitor) (c07Record, error) {
+// c07CallRun is one call of a history while it runs.
+type c07CallRun struct {
+	started  time.Time
+	done     chan struct{}
+	out      c07Out        // valid after done
+	at       time.Duration // valid after done
+	noreturn bool
+	wdAt     time.Duration
+}
+
+// c07Run runs one history on one real instance and returns two records (Reset, Return) per call that was started.
+// A call that has not returned 2.5 T after its start is recorded as `noreturn` (no action of the specification
+// explains it) and the instance is abandoned: the remaining calls of the history are not made.
+func c07Run(sc *c07Scenario, mon *c07Monitor) ([]c07Record, error) {
 	kit, ok := c07Kits[sc.Strat]
 	if !ok {
-		return c07Record{}, fmt.Errorf("unknown strategy %q", sc.Strat)
+		return nil, fmt.Errorf("unknown strategy %q", sc.Strat)
+	}
+	calls := sc.Calls
+	if len(calls) == 0 {
+		calls = []c07Call{{At: "seq", Provs: sc.Provs}}
 	}
 	rnd := rand.New(rand.NewSource(sc.Seed))
 	T := time.Duration(sc.T) * time.Millisecond
 	style := rnd.Intn(12)
-	cores := make([]*c07Core, sc.N)
-	for i := range cores {
-		var frac float64
-		switch sc.Provs[i].Ph {
-		case "early":
-			frac = 0.20 * rnd.Float64()
-		case "mid":
-			frac = 0.65 + 0.15*rnd.Float64()
-		default:
-			frac = 1.30 + 0.15*rnd.Float64()
+	h := &c07Hist{sc: sc, cores: make([][]*c07Core, len(calls))}
+	for j := range calls {
+		if len(calls[j].Provs) != sc.N {
+			return nil, fmt.Errorf("scenario %d call %d: %d nodes scripted, the instance has %d", sc.Sc, j+1, len(calls[j].Provs), sc.N)
 		}
-		cores[i] = &c07Core{idx: i + 1, script: sc.Provs[i], delay: time.Duration(frac * float64(T)), maxSilent: 3 * T,
-			done: make(chan struct{})}
+		h.cores[j] = make([]*c07Core, sc.N)
+		for i := range h.cores[j] {
+			var frac float64
+			switch calls[j].Provs[i].Ph {
+			case "early":
+				frac = 0.20 * rnd.Float64()
+			case "mid":
+				frac = 0.65 + 0.15*rnd.Float64()
+			default:
+				frac = 1.30 + 0.15*rnd.Float64()
+			}
+			h.cores[j][i] = &c07Core{idx: i + 1, call: j, script: calls[j].Provs[i], delay: time.Duration(frac * float64(T)),
+				maxSilent: 3 * T, done: make(chan struct{})}
+		}
 	}
 	ctx := context.Background()
-	call, scores, err := kit(ctx, sc, cores, style)
+	call, scores, err := kit(ctx, h, style)
 	if err != nil {
-		return c07Record{}, fmt.Errorf("scenario %d: cannot build %s: %w", sc.Sc, sc.Strat, err)
+		return nil, fmt.Errorf("scenario %d: cannot build %s: %w", sc.Sc, sc.Strat, err)
 	}
 
-	type result struct {
-		out c07Out
-		at  time.Duration
-	}
-	resCh := make(chan result, 1)
-	start := time.Now()
-	for _, c := range cores {
-		c.t0 = start
-	}
-	go pprof.Do(ctx, pprof.Labels("c07sc", strconv.Itoa(sc.Sc)), func(ctx context.Context) {
-		out := call(ctx)
-		resCh <- result{out: out, at: time.Since(start)}
-	})
-	var res result
-	noreturn := false
-	select {
-	case res = <-resCh:
-	case <-time.After(5 * T / 2):
-		noreturn = true
-		res.at = time.Since(start)
-	}
-	// Let every fake finish (late nodes answer after the strategy has gone).
-	limit := time.NewTimer(time.Until(start.Add(3*T + 200*time.Millisecond)))
-	defer limit.Stop()
-	for _, c := range cores {
+	runs := make([]*c07CallRun, len(calls))
+	histStart := time.Now()
+	abandoned := false
+	// wait for call j to return; its watchdog fires 2.5 T after its start
+	waitFor := func(j int) {
+		r := runs[j]
+		if r == nil || r.noreturn {
+			return
+		}
 		select {
-		case <-c.done:
-		case <-limit.C:
+		case <-r.done:
+			return
+		default:
+		}
+		select {
+		case <-r.done:
+		case <-time.After(time.Until(r.started.Add(5 * T / 2))):
+			r.noreturn = true
+			r.wdAt = time.Since(r.started)
+			abandoned = true
 		}
 	}
-	end := time.Now()
+	launch := func(j int) {
+		r := &c07CallRun{started: time.Now(), done: make(chan struct{})}
+		runs[j] = r
+		for _, c := range h.cores[j] {
+			c.t0 = r.started
+		}
+		h.latest.Store(int32(j))
+		cctx := context.WithValue(ctx, c07CallKey{}, j)
+		go pprof.Do(cctx, pprof.Labels("c07sc", strconv.Itoa(sc.Sc)), func(ctx context.Context) {
+			out := call(ctx, j)
+			r.out, r.at = out, time.Since(r.started)
+			close(r.done)
+		})
+	}
+	for j := range calls {
+		switch {
+		case j == 0:
+		case calls[j].At == "early":
+			// together with the previous call
+		case calls[j].At == "mid":
+			// when the previous call has passed its soft time-out (if it has returned by then: at once)
+			prev := runs[j-1]
+			select {
+			case <-prev.done:
+			case <-time.After(time.Until(prev.started.Add(time.Duration((0.55 + 0.05*rnd.Float64()) * float64(T))))):
+			}
+		default:
+			for k := 0; k < j; k++ {
+				waitFor(k)
+			}
+		}
+		if abandoned {
+			break
+		}
+		launch(j)
+	}
+	for j := range calls {
+		waitFor(j)
+	}
+	// Let every fake of the calls made finish (late nodes answer after the strategy has gone).
+	for j, r := range runs {
+		if r == nil {
+			continue
+		}
+		limit := r.started.Add(3*T + 200*time.Millisecond)
+		for _, c := range h.cores[j] {
+			select {
+			case <-c.done:
+			case <-time.After(time.Until(limit)):
+			}
+		}
+	}
 
-	obs := make([]verifsupport.Ev, sc.N)
-	for i, c := range cores {
-		c.mu.Lock()
-		kind, at, called := c.kind, c.at, c.called
-		c.mu.Unlock()
-		if called == 0 || kind == "" {
-			kind = "none"
+	var recs []c07Record
+	for j, r := range runs {
+		if r == nil {
+			continue
 		}
-		o := verifsupport.Ev{"k": kind, "v": 0, "s": 0, "t": int(at / time.Millisecond), "inv": c.script.Inv, "calls": called}
-		if kind == "valid" {
-			o["v"] = c.script.V
-			o["s"] = scores[i]
+		var out c07Out
+		retAt := r.wdAt
+		if !r.noreturn {
+			out, retAt = r.out, r.at
 		}
-		obs[i] = o
+		last := retAt
+		obs := make([]verifsupport.Ev, sc.N)
+		for i, c := range h.cores[j] {
+			c.mu.Lock()
+			kind, at, called := c.kind, c.at, c.called
+			c.mu.Unlock()
+			if called == 0 || kind == "" {
+				kind = "none"
+			}
+			if at > last {
+				last = at
+			}
+			o := verifsupport.Ev{"k": kind, "v": 0, "s": 0, "t": int(at / time.Millisecond), "inv": c.script.Inv, "calls": called}
+			if kind == "valid" {
+				o["v"] = c.script.V
+				o["s"] = scores[i][j]
+			}
+			obs[i] = o
+		}
+		reset := verifsupport.Ev{"sc": sc.Sc, "ev": "Reset", "strat": sc.Strat, "variant": sc.Variant, "n": sc.N, "thr": sc.Thr,
+			"cap": sc.Cap, "T": sc.T, "obs": obs, "call": j + 1, "calls": len(calls), "pcy": int(sc.pc()), "at": calls[j].At,
+			"t0": int(r.started.Sub(histStart) / time.Millisecond), "slot": int(sc.slot(j))}
+		ret := verifsupport.Ev{"sc": sc.Sc, "ev": "Return", "call": j + 1, "noreturn": r.noreturn, "ok": !r.noreturn && out.err == nil,
+			"who": out.who, "val": out.val, "of": out.of, "nildata": out.nildata, "t": int(retAt / time.Millisecond),
+			"jit": int(mon.maxBetween(r.started, r.started.Add(last)) / time.Millisecond), "blocked": 0,
+			"noctx": int(h.noctx.Load())}
+		if out.err != nil {
+			ret["err"] = out.err.Error()
+		}
+		recs = append(recs, c07Record{reset: reset, ret: ret})
 	}
-	reset := verifsupport.Ev{"sc": sc.Sc, "ev": "Reset", "strat": sc.Strat, "variant": sc.Variant, "n": sc.N, "thr": sc.Thr,
-		"cap": sc.Cap, "T": sc.T, "obs": obs}
-	ret := verifsupport.Ev{"sc": sc.Sc, "ev": "Return", "noreturn": noreturn, "ok": !noreturn && res.out.err == nil,
-		"who": res.out.who, "val": res.out.val, "nildata": res.out.nildata, "t": int(res.at / time.Millisecond),
-		"jit": int(mon.maxBetween(start, end) / time.Millisecond), "blocked": 0}
-	if res.out.err != nil {
-		ret["err"] = res.out.err.Error()
-	}
-	return c07Record{reset: reset, ret: ret}, nil
+	return recs, nil
 }
 
 var (
@@ -888,8 +1079,9 @@ func TestVerifC07(t *testing.T) {
 	if par > len(scenarios) {
 		par = len(scenarios)
 	}
+	began := time.Now()
 	mon := c07StartMonitor()
-	records := make([]c07Record, len(scenarios))
+	records := make([][]c07Record, len(scenarios))
 	errs := make([]error, len(scenarios))
 	next := make(chan int)
 	var wg sync.WaitGroup
@@ -904,12 +1096,29 @@ func TestVerifC07(t *testing.T) {
 			}
 		}(w)
 	}
-	for i := range scenarios {
+	// longest histories first: the batch ends when the last one does
+	order := make([]int, len(scenarios))
+	for i := range order {
+		order[i] = i
+	}
+	sort.SliceStable(order, func(a, b int) bool { return len(scenarios[order[a]].Calls) > len(scenarios[order[b]].Calls) })
+	for _, i := range order {
 		next <- i
 	}
 	close(next)
 	wg.Wait()
 	close(mon.stop)
+	if dbg := os.Getenv("VERIF_C07_STALLS"); dbg != "" {
+		var sb strings.Builder
+		mon.mu.Lock()
+		for _, st := range mon.stalls {
+			if st.over > 30*time.Millisecond {
+				fmt.Fprintf(&sb, "stall of %v at +%v\n", st.over, st.at.Sub(began))
+			}
+		}
+		mon.mu.Unlock()
+		_ = os.WriteFile(dbg, []byte(sb.String()), 0o600)
+	}
 	for _, err := range errs {
 		if err != nil {
 			t.Fatal(err)
@@ -918,10 +1127,13 @@ func TestVerifC07(t *testing.T) {
 	time.Sleep(100 * time.Millisecond)
 	blocked := c07Blocked()
 	for i := range records {
-		if records[i].ret["noreturn"] == false {
-			records[i].ret["blocked"] = blocked[scenarios[i].Sc]
+		// (goroutines are labelled per history: the count is put on its last call)
+		if k := len(records[i]); k > 0 && records[i][k-1].ret["noreturn"] == false {
+			records[i][k-1].ret["blocked"] = blocked[scenarios[i].Sc]
 		}
-		tr.Emit(records[i].reset)
-		tr.Emit(records[i].ret)
+		for _, r := range records[i] {
+			tr.Emit(r.reset)
+			tr.Emit(r.ret)
+		}
 	}
 }
